@@ -9,6 +9,14 @@ def req_name(text):
     return text.strip().split(",")[0]
 
 
+class Endless(BaseException):
+    """raised by a scripted port after far more consecutive reads than any request may make: the code under test does not return.
+    (A BaseException, so that no `except Exception` / `except SerialException` of the code under test swallows it.)"""
+
+
+MAX_READS = 3000
+
+
 class PortExtras:
     """members of serial.Serial a caller may also touch; harmless here (a scripted port has nothing to flush and is always open)"""
     is_open = True
@@ -25,6 +33,26 @@ class PortExtras:
     def isOpen(self):  # pylint: disable=invalid-name
         return True
 
+    def count_read(self, reset=False):
+        """call from readline() (and with reset=True from write()): more than MAX_READS reads in a row means an endless loop"""
+        self._reads_in_a_row = 0 if reset else getattr(self, "_reads_in_a_row", 0) + 1
+        if self._reads_in_a_row > MAX_READS:
+            raise Endless()
+
+    in_waiting = 0                 # nothing is ever buffered ahead of a readline() here
+
+    def inWaiting(self):  # pylint: disable=invalid-name
+        return 0
+
+    def read_until(self, *_a, **_k):
+        return self.readline()
+
+    def __enter__(self):
+        return self
+
+    def __exit__(self, *_a):
+        self.close()
+
 
 class LegacyOKPort(PortExtras):
     """legacy-syntax board that answers every request as documented (data line and/or OK)"""
@@ -35,6 +63,7 @@ class LegacyOKPort(PortExtras):
         self.q = []
 
     def write(self, data):
+        self.count_read(reset=True)
         text = data.decode("ascii")
         self.writes.append(text)
         name = req_name(text).lower()
@@ -54,6 +83,7 @@ class LegacyOKPort(PortExtras):
         return len(data)
 
     def readline(self):
+        self.count_read()
         return self.q.pop(0).encode("ascii") if self.q else b""
 
     def close(self):
@@ -78,6 +108,7 @@ class EchoPort(PortExtras):
         return {"QS": "0,0", "QC": "0394,0300", "QL": "7", "QT": "Lab", "PI": "1", "QG": "3E"}.get(name)
 
     def write(self, data):
+        self.count_read(reset=True)
         text = data.decode("ascii")
         self.writes.append(text)
         name = req_name(text)
@@ -87,6 +118,7 @@ class EchoPort(PortExtras):
         return len(data)
 
     def readline(self):
+        self.count_read()
         return self.q.pop(0).encode("ascii") if self.q else b""
 
     def close(self):
